@@ -21,8 +21,8 @@
         VM-level type failure, and a finished run's result inhabits the entry's result type
 
      core_soundness / core_progress / core_type_safety   for the CORE FRAGMENT of typed/Core.v (an
-        AST-level typing judgement `infer` and evaluator `eval`: literals, tuples, positional
-        field access, the two builtins integer_add / binary_length, bare and type-ascribed
+        AST-level typing judgement `infer` and evaluator `eval`: literals, named / labelled tuples,
+        field access by position and by label, the two builtins integer_add / binary_length, bare and type-ascribed
         binders with nil-narrowing, blocks on a variable with forward and complement narrowing
         as compile_block implements them after F13 F53 F54 F59 F66 F74 F80 F86 - dead branches
         contribute nothing, a never complement is not applied -, calls of monomorphic
@@ -202,16 +202,19 @@ Print Assumptions C01_core_program_safety.
 (* non-vacuity: `f0 = #(A['int] | B) { v1 = $, v1 { | =A[v2] => [v2, 1] __integer_add__ | 7 } }`,
    `[A[4] f0, B f0, 0xababab __binary_length__]` is accepted at ['int, 'int, 'int] and evaluates
    to [5, 7, 3]; with the default reading the narrowed variable's field it is rejected *)
+Definition shA : shape := (Some 0, [None]).
+Definition shB : shape := (Some 1, []).
 Definition ex_core_fns : list fdef :=
-  [ (TyUnion [TyTup (Some 0) [TyInt]; TyTup (Some 1) []],
-     ELet 1 (EVar 0) (ECase 1 [(PTup (Some 0) [Some 2], EAdd (EVar 2) (EInt 1%Z))] (EInt 7%Z))) ].
+  [ (TyUnion [TyTup shA [TyInt]; TyTup shB []],
+     ELet 1 (EVar 0) (ECase 1 [(PTup shA [Some 2], EAdd (EVar 2) (EInt 1%Z))] (EInt 7%Z))) ].
 Definition ex_core_main : exp :=
-  ETup None [ECall 0 (ETup (Some 0) [EInt 4%Z]); ECall 0 (ETup (Some 1) []); ELen (EBinLit 3)].
+  ETup (None, [None; None; Some 5])
+       [ECall 0 (ETup shA [EInt 4%Z]); ECall 0 (ETup shB []); ELen (EBinLit 3)].
 
 Example C01_core_nonvacuous :
-  infer_prog ex_core_fns 20 ex_core_main = Some (TyTup None [TyInt; TyInt; TyInt]) /\
-  eval ex_core_fns 20 [] ex_core_main = Some (CTup None [CInt 5%Z; CInt 7%Z; CInt 3%Z]) /\
-  infer [(TyUnion [TyTup (Some 0) [TyInt]; TyTup (Some 1) []],
-          ELet 1 (EVar 0) (ECase 1 [(PTup (Some 0) [Some 2], EVar 2)] (EGet (EVar 1) 0)))]
-        20 [] (ECall 0 (ETup (Some 1) [])) = None.
+  infer_prog ex_core_fns 20 ex_core_main = Some (TyTup (None, [None; None; Some 5]) [TyInt; TyInt; TyInt]) /\
+  eval ex_core_fns 20 [] (EGetL ex_core_main 5) = Some (CInt 3%Z) /\
+  infer [(TyUnion [TyTup shA [TyInt]; TyTup shB []],
+          ELet 1 (EVar 0) (ECase 1 [(PTup shA [Some 2], EVar 2)] (EGet (EVar 1) 0)))]
+        20 [] (ECall 0 (ETup shB [])) = None.
 Proof. vm_compute. repeat split; reflexivity. Qed.
